@@ -198,7 +198,63 @@ func rtPhases(which string, unpriv bool) []*fw.Phase {
 			return runRoundTrip(which, env, rtCase{Tree: t, Opts: allPackOpts[idx%len(allPackOpts)]})
 		},
 	}
-	return []*fw.Phase{random, modes, mtimes}
+	// the default rules exclude ".terraform/" but re-include ".terraform/modules/":
+	// the re-included directory, whatever it holds, is part of the slug with its
+	// own mode and time, at every depth and beside excluded siblings
+	dmodes := []uint32{0700, 0755, 0711, 0555}
+	if unpriv {
+		dmodes = []uint32{0700, 0755, 0500, 0775}
+	}
+	prefixes := []string{"", "a/", "a/b/"}
+	contents := []string{"empty", "file", "subdir-file", "subdir-empty"}
+	siblings := []string{"none", "dir", "file"}
+	defaults := &fw.Phase{
+		Name: "default-rule-subtrees" + suffix, Chroot: true, Unpriv: unpriv, Exhaustive: true,
+		N: func(string) int { return len(prefixes) * len(dmodes) * len(contents) * len(siblings) * len(allPackOpts) },
+		Run: func(env *fw.Env, idx int) fw.Result {
+			k := idx
+			pick := func(n int) int { v := k % n; k /= n; return v }
+			opts := allPackOpts[pick(len(allPackOpts))]
+			pre, dm, content, sib := prefixes[pick(len(prefixes))], dmodes[pick(len(dmodes))], contents[pick(len(contents))], siblings[pick(len(siblings))]
+			var t gen.TreeSpec
+			add := func(path, kind string, mode uint32, mt int64) {
+				n := gen.NodeSpec{Path: path, Kind: kind, Mode: mode, Mtime: mt, MtimeNs: 400000000}
+				if kind == "file" {
+					n.Content = path
+				}
+				t.Nodes = append(t.Nodes, n)
+			}
+			if pre != "" {
+				add(strings.TrimSuffix(pre, "/"), "dir", 0755, 1200000000)
+				if pre == "a/b/" {
+					add("a", "dir", 0755, 1100000000)
+				}
+			}
+			add(pre+"main.tf", "file", 0644, 1300000000)
+			add(pre+".terraform", "dir", 0755, 1400000000)
+			add(pre+".terraform/modules", "dir", dm, 1500000000)
+			switch content {
+			case "file":
+				add(pre+".terraform/modules/modules.json", "file", 0600, 1510000000)
+			case "subdir-file":
+				add(pre+".terraform/modules/m", "dir", dm, 1520000000)
+				add(pre+".terraform/modules/m/main.tf", "file", 0640, 1530000000)
+			case "subdir-empty":
+				add(pre+".terraform/modules/m", "dir", dm, 1520000000)
+			}
+			switch sib {
+			case "dir":
+				add(pre+".terraform/providers", "dir", 0755, 1540000000)
+				add(pre+".terraform/providers/p", "file", 0755, 1550000000)
+				add(pre+".git", "dir", 0755, 1560000000)
+				add(pre+".git/HEAD", "file", 0644, 1570000000)
+			case "file":
+				add(pre+".terraform/terraform.tfstate", "file", 0644, 1540000000)
+			}
+			return runRoundTrip(which, env, rtCase{Tree: t, Opts: opts})
+		},
+	}
+	return []*fw.Phase{random, modes, mtimes, defaults}
 }
 
 func init() {
